@@ -386,6 +386,7 @@ def run(tier):
               "max([1000] * 1000000, key=factorial)", "min([900] * 1000000, key=factorial)", "max([0.5] * 1000000, key=exp)", "sum([[0]] * 300000, [])", "sum([(0,)] * 300000, ())",
               "'%1000000000d' % 1", "len('%*d' % (1000000000, 1))", "'%.1000000000f' % 1.5", "['%1000000000d' % 1, '%1000000000d' % 2, '%1000000000d' % 3, '%1000000000d' % 4, '%1000000000d' % 5]",
               "max([[0] * 1000000] * 1000000, [[0] * 1000000] * 1000000)", "[[0] * 1000000] * 1000000 == [[1] * 1000000] * 1000000", "([[0] * 1000000] * 1000000) < ([[0] * 1000000] * 1000000)",
+              "round(1, -100000000)", "round(10 ** 4000, ndigits=-1000000000)", "round(True, -99999999)", "round(-7, -(10 ** 8))", "round(5, -20000)",
               "max([[0] * 1000000] + [[0] * 1000000] * 999999)", "max([[0] * 1000000, [0] * 1000000, [0] * 1000000] * 300000)", "max(([0] * 1000000,) * 1000000)"]:
         add(s, "bomb", None, bomb=False, safe=False, alo=0, ahi=0, hi=10 ** 9)
         add(s, "bomb", "legacy", bomb=False, safe=False, alo=0, ahi=0, hi=10 ** 9)
